@@ -319,20 +319,26 @@ pub fn worker(lo: usize, hi: usize, skip: &[usize], tier: &str) {
             continue;
         }
         // allowed torn-tail outcomes: truncate the newest segment at every length on the intact dir
-        let mut tail_ok: BTreeSet<u64> = BTreeSet::new();
-        if let Some(nw) = &b.newest_wal {
-            if let Some(data) = b.image.get(nw) {
-                for len in 0..data.len() {
-                    let mut img = b.image.clone();
-                    img.get_mut(nw).unwrap().truncate(len);
-                    let cd = scratch.path.join("c13tail");
-                    materialize(&img, &cd);
-                    if let Ok(be) = cfg.recover(&cd) {
-                        tail_ok.insert(hash_dump(&dump_backend(&be)));
+        // (computed on first use: only a start-up that succeeds with a different collection after
+        // damage to the newest segment needs it)
+        let mut tail_ok_cache: Option<BTreeSet<u64>> = None;
+        let compute_tail_ok = |b: &Built| -> BTreeSet<u64> {
+            let mut tail_ok: BTreeSet<u64> = BTreeSet::new();
+            if let Some(nw) = &b.newest_wal {
+                if let Some(data) = b.image.get(nw) {
+                    for len in 0..data.len() {
+                        let mut img = b.image.clone();
+                        img.get_mut(nw).unwrap().truncate(len);
+                        let cd = scratch.path.join("c13tail");
+                        materialize(&img, &cd);
+                        if let Ok(be) = cfg.recover(&cd) {
+                            tail_ok.insert(hash_dump(&dump_backend(&be)));
+                        }
                     }
                 }
             }
-        }
+            tail_ok
+        };
         for (fi, f) in faults.iter().enumerate() {
             let gi = dir_base + fi;
             if gi < lo || gi >= hi || skip.contains(&gi) {
@@ -376,7 +382,7 @@ pub fn worker(lo: usize, hi: usize, skip: &[usize], tier: &str) {
                     st.outcomes.insert(hash_dump(&d));
                     if d == b.dump {
                         st.exact += 1;
-                    } else if rl == "wal:newest" && tail_ok.contains(&hash_dump(&d)) {
+                    } else if rl == "wal:newest" && tail_ok_cache.get_or_insert_with(|| compute_tail_ok(&b)).contains(&hash_dump(&d)) {
                         st.excluded_tail += 1;
                     } else {
                         let sym = symptom(&b.dump, &d);
